@@ -220,6 +220,29 @@ class Estimates:
         return 0
 
 
+def compare_runs(digests_a, digests_b):
+    """First (step, component) at which two runs of one network differ beyond rounding, or None.
+
+    Returns (diff, after_rounding_divergence).  Stacking the same observations in another order changes a filter update at the
+    cond(S)*eps level (tolerated by ``Estimates``); a later update multiplies that by gain times innovation, which for an
+    over-confident filter reaches percents of a sigma within a step or two (measured: 1.6e-7 sigma -> 3e-2 sigma in one step).
+    So once some estimate has differed in its bits at an earlier step, a later estimate-derived difference is no evidence of
+    order dependence: the flag tells the caller to count the schedule as trivial instead of reporting it."""
+    rounded = False
+    for k, (da, db) in enumerate(zip(digests_a, digests_b)):
+        comp = first_difference(da, db)
+        if comp is not None:
+            derived = not (comp.startswith("truth") or comp.startswith("sensor_truth"))
+            return (k + 1, comp), (rounded and derived)
+        ea, eb = da.get("estimates"), db.get("estimates")
+        if isinstance(ea, Estimates) and isinstance(eb, Estimates):
+            for t, (x, p) in ea.data.items():
+                x2, p2 = eb.data[t]
+                if x.tobytes() != x2.tobytes() or p.tobytes() != p2.tobytes():
+                    rounded = True
+    return None, False
+
+
 CAUSAL_ORDER = ["truth", "sensor_truth", ".visibility", ".reward", ".decision", ".observations", ".missed", "pointing", "estimates", "est_flags", "db."]
 
 
